@@ -12,8 +12,9 @@ package types_test
 //	    sets of 2, 3, 5 and 16 keys, AddressFromMultiPubKeys, both with refused parameters too, ProgramFromPubKey,
 //	    GetProgramInfo of hand-encoded scripts, one of them unparsable) and every sequence of 3 calls over a core
 //	    alphabet of 9 of them (thorough: 40 calls, all of them core); every result of every call is kept;
-//	(B) every (key set, threshold) of the key-type patterns of the sigscript part (n = 2..16, m = 1..n) and a single-key
-//	    script of every key kind, each followed by every call of the core alphabet.
+//	(B) every (key set, threshold) of the key-type patterns p, psek, kp (thorough: the patterns of the sigscript part and
+//	    every same-kind pattern; n = 2..16, m = 1..n) and a single-key script of every key kind, each followed by every
+//	    call of the core alphabet.
 //
 // Determinism of the harness: process-wide caches that the garbage collector may empty (sync.Pool) are part of a
 // history's state, so the histories run on one P (GOMAXPROCS(1)) without automatic collections, and every history
@@ -219,17 +220,45 @@ func c23runHistory(h []c23op, every bool) (res c23hres) {
 				res.freshWrong = true
 				return
 			}
-			for _, k := range kept {
+			// kept parse results first, then kept scripts (checking a script parses it: one more GetProgramInfo call in
+			// this process), then the kept parse results once more, a change now being one after that parse
+			after := o
+			bad := false
+			check := func(k *c23kept) {
 				aspect, why := c23keptCheck(k)
 				if aspect == "" {
-					res.intact = append(res.intact, k.what+":after-"+o.class())
-					continue
+					res.intact = append(res.intact, k.what+":after-"+after.class())
+					return
 				}
+				bad = true
 				if i < len(h)-1 && !every {
 					res.prefixBad = true
 					return
 				}
-				res.bad, res.after, res.aspect, res.why = k, o, aspect, why
+				res.bad, res.after, res.aspect, res.why = k, after, aspect, why
+			}
+			for _, k := range kept {
+				if k.what == "parsed-keys" && !bad {
+					check(k)
+				}
+			}
+			parsedScript := false
+			var lastParse c23op
+			for _, k := range kept {
+				if k.what != "parsed-keys" && !bad {
+					check(k)
+					parsedScript, lastParse = true, c23op{Kind: "parse", Keys: k.from.Keys, M: k.m}
+				}
+			}
+			if parsedScript && !bad {
+				after = lastParse
+				for _, k := range append(append([]*c23kept{}, kept...), ks...) { // also the parse result this call just returned
+					if k.what == "parsed-keys" && !bad {
+						check(k)
+					}
+				}
+			}
+			if bad {
 				return
 			}
 			kept = append(kept, ks...)
@@ -338,6 +367,13 @@ func c23heldRun(r *vh.Run, mine func() bool, replay []c23op) {
 	run := func(h []c23op) bool {
 		hr := c23runHistory(h, false)
 		account(h, hr)
+		if hr.bad != nil && len(h) == 3 {
+			// the same kept result changes after the same call without the third call of the history: the 2-call history reports it
+			if sub := c23runHistory([]c23op{h[hr.bad.step], hr.after}, false); sub.bad != nil {
+				r.Class("held:history-ended:reported-by-a-shorter-history")
+				return false
+			}
+		}
 		if hr.bad != nil || hr.panicked != "" {
 			report(h, hr)
 			return false
@@ -372,7 +408,7 @@ func c23heldRun(r *vh.Run, mine func() bool, replay []c23op) {
 		}
 	}
 	// (B) every (key set, threshold) of the key-type patterns and a single-key script of every kind, then every call of the alphabet
-	patterns := []string{"p", "pseqk", "kp"}
+	patterns := []string{"p", "psek", "kp"} // quick: without P-224 keys (their point decompression costs ~1 ms per key and parse)
 	if r.Thorough() {
 		patterns = []string{"p", "s", "e", "k", "q", "a", "b", "c", "pseqk", "kp", "es", "qp", "abc"}
 	}
